@@ -145,6 +145,29 @@ def run(E: Engine, rep: Report, tier: str) -> dict:
     r = S(E, rt).ret
     rep.check(has(r, "Q_k / Q_s.mod_bandwidth * QS_r") is not None, "GUARD", "Channel.rise_time|from-mod_bandwidth", "rise time = MODBW_TO_TR / mod_bandwidth", f"rise_time no longer derives from mod_bandwidth: {sh(r)}", E.where(rt))
     rep.floor("GUARD", 4)
+    # RETKIND: add_target decides "same targets -> no retarget" with `last.targets == qubits_set`; the target ids it
+    # receives come from functions annotated `-> set[...]`.  A return that is certainly not a set (list / tuple / dict
+    # literal or comprehension, list()/tuple()/sorted()) makes that equality always false: every re-target to the same
+    # atoms then inserts a retarget delay.  Decided for every function of the program with a set return annotation.
+    import ast as _ast
+
+    from .symutil import branches as _branches10, unobj as _unobj10
+
+    n_ret = 0
+    for g in E.P.all_functions():
+        r_ann = g.node.returns
+        if r_ann is None or g.kind == "overload" or not _ast.unparse(r_ann).replace("typing.", "").lower().startswith(("set[", "set", "abstractset", "frozenset")):
+            continue
+        for l in S(E, g, inline=False).logged("return"):
+            if l.value is None or l.fn != g.short:
+                continue
+            for _c, leaf in _branches10(l.value):
+                v = _unobj10(leaf)
+                n_ret += 1
+                not_set = v[0] in ("list", "tuple", "dict") or (v[0] == "comp" and v[1] in ("list", "dict", "gen")) or (v[0] == "call" and v[1] in (("name", "list"), ("name", "tuple"), ("name", "dict"), ("name", "sorted")))
+                rep.check(not not_set, "GUARD", f"{g.short}|returns-a-set|{sh(v, 30)}", "returned value is not a list/tuple/dict", f"{g.short} is declared to return a set but returns `{sh(v, 80)}`: callers compare it with sets (`last.targets == qubits_set` in _Schedule.add_target) and such a comparison is never true for a list, so re-targeting the same atoms inserts a retarget", E.where(g, l.node))
+    if n_ret < 8:
+        rep.error(f"RETKIND: only {n_ret} returns of set-annotated functions found")
     return {}
 
 
